@@ -151,6 +151,7 @@ def run(ctx):
     kt = G.one('cctz::detail::ToTM')
     ut, ft = G.defs[kt]
     F = ctx.facts(ft)
+    decided_by_facts = False
     casts = [x for x in walk(ft) if x.get('kind') == 'CXXStaticCastExpr' and (dtype(x) or qtype(x)) == 'int']
     IMIN, IMAX = -2 ** 31, 2 ** 31 - 1
     for x in casts:
@@ -173,6 +174,9 @@ def run(ctx):
                 if b == ek and a.startswith('n:') and op in ('<=', '<'):
                     v = int(a[2:]) + (1 if op == '<' else 0) + c
                     lo = v if lo is None else max(lo, v)
+            if lo is None or hi is None:
+                continue
+            decided_by_facts = True
             safe = lo is not None and hi is not None and lo - c >= IMIN and hi - c <= IMAX
             exact = safe and lo - c == IMIN and hi - c == IMAX
             ctx.check(safe, 'C08-tm', 'static_cast<int>(year - %d) only for years in [%s,%s]' % (c, lo, hi), x,
@@ -182,8 +186,56 @@ def run(ctx):
                       'tm_year is computed exactly only for years in [%s,%s]; every year with year-%d in [INT_MIN,INT_MAX] '
                       'must be, otherwise strftime-delegated year fields render a saturated year' % (lo, hi, c),
                       construct='tm:exact', detail='[%s,%s]' % (lo, hi))
-        else:
-            ctx.bad('C08-tm', 'narrowing cast in ToTM', x, 'unrecognised operand %s' % ek, construct='tm:cast')
+    # tm_year by abstract interpretation on the three partitions of the civil year the specification names: below,
+    # inside and above the years whose distance from 1900 fits an int.  cs.year() is one value across its calls.
+    BASE = 1900
+
+    class _TmObs(Observer):
+        def __init__(self):
+            self.nar = []
+            self.ovf = []
+
+        def narrowing(self, ai_, e, val, it, explicit, st_):
+            self.nar.append((e, val, it))
+
+        def overflow(self, ai_, e, val, it, st_):
+            self.ovf.append((e, val, it))
+
+    def tm_year_for(lo, hi):
+        o = _TmObs()
+        ai2 = AI(G, o, assume_returns={'cctz::detail::civil_time<second_tag>::year': Int(lo, hi)}, pure_memo=True,
+                 inline=lambda k_: k_[0] in ('cctz::detail::ToTM',))
+        st2 = St()
+        st2.refs[params_of(ft)[0]['id']] = ('AL',)
+        res2 = ai2.analyse(kt, st2)
+        val = None
+        rets_ = [r for r in walk(ft) if r.get('kind') == 'ReturnStmt' and kids(r)]
+        rid = None
+        if len(rets_) == 1:
+            rd_ = [y for y in walk(rets_[0]) if y.get('kind') == 'DeclRefExpr' and (y.get('referencedDecl') or {}).get('kind') == 'VarDecl']
+            rid = (rd_[0].get('referencedDecl') or {}).get('id') if len(rd_) == 1 else None
+        for (v, s_) in res2 or ():
+            loc = getattr(v, 'loc', None) or ((rid,) if rid else None)
+            ty = s_.mem.get(loc + ('tm_year',)) if loc is not None else None
+            if ty is None:
+                return None, o
+            val = ty if val is None else val.join(ty) if isinstance(ty, Int) and isinstance(val, Int) else None
+            if val is None:
+                return None, o
+        return val, o
+    parts = [('below', -2 ** 63, IMIN + BASE - 1, Int(IMIN, IMIN)), ('inside', IMIN + BASE, IMAX + BASE, Int(IMIN, IMAX)),
+             ('above', IMAX + BASE + 1, 2 ** 63 - 1, Int(IMAX, IMAX))]
+    for (nm, lo, hi, want) in ([] if decided_by_facts else parts):
+        got, o = tm_year_for(lo, hi)
+        from .c10 import mentions_year
+        in_tm = [t for t in o.nar + o.ovf if any(a is ft for a in ancestors(t[0])) and mentions_year(t[0], ut)]
+        ctx.check3(None if got is None else (isinstance(got, Int) and got.lo == want.lo and got.hi == want.hi and not in_tm), 'C08-tm',
+                   'tm_year for civil years %s the int range around 1900 is %s' % (nm, want), ft,
+                   'for civil years in [%d,%d] ToTM stores tm_year = %s%s; exactly %s is required (year - 1900 where it fits an int, '
+                   'the nearest int otherwise): strftime-delegated year fields render another year, or the narrowing is undefined'
+                   % (lo, hi, got, (' with a value-changing narrowing / overflow of %s' % in_tm[0][1]) if in_tm else '', want),
+                   construct='tm:year:%s' % nm, detail=str(got),
+                   unknown_why='the value stored in tm_year was not followed by the abstract interpreter')
     n_sites = 0
     for (x, Ff) in [(x_, ctx.facts(f_)) for k_, (u_, f_) in sorted(G.defs.items()) for x_ in walk(f_)
                     if x_.get('kind') == 'CallExpr' and callee(x_) and callee(x_)[0] == 'fn' and callee(x_)[1].get('name') == 'FormatTM'
